@@ -27,15 +27,26 @@ def load_check(prop):
     return mod.CHECK
 
 
-def one_run(check, tier, verif_seed, idx):
+def one_run(check, tier, verif_seed, idx, with_subcases=True):
+    """Returns [(seed, case, res), ...]: the generated case and, for checks that
+    enumerate fault points, one further run per crash point of that history."""
     import random
 
     seed = harness.run_seed(verif_seed, check.prop, idx)
     rng = random.Random(seed)
     case = check.gen(rng, tier, idx)
-    spec = harness.draw_policy(rng, getattr(check, "policy_weights", (0.5, 0.3, 0.2)))
+    if hasattr(check, "policy"):
+        spec = check.policy(case, rng)
+    else:
+        spec = harness.draw_policy(rng, getattr(check, "policy_weights", (0.5, 0.3, 0.2)))
     res = harness.execute(check, case, spec, seed)
-    return seed, case, res
+    out = [(seed, case, res)]
+    if with_subcases and hasattr(check, "expand"):
+        for j, sub in enumerate(check.expand(case, res, rng, tier)):
+            sseed = harness.splitmix64(seed + 1 + j)
+            sspec = check.policy(sub, rng) if hasattr(check, "policy") else harness.draw_policy(rng)
+            out.append((sseed, sub, harness.execute(check, sub, sspec, sseed)))
+    return out
 
 
 def work_chunk(args):
@@ -50,35 +61,35 @@ def work_chunk(args):
     for idx in range(start, start + count):
         if time.time() > deadline:
             break
-        seed, case, res = one_run(check, tier, verif_seed, idx)
         agg["next"] = idx + 1
-        agg["runs"] += 1
-        if res["harness_error"]:
-            agg["harness_errors"].append({"idx": idx, "error": res["harness_error"][-1500:]})
-            continue
-        agg["steps"] += res["steps"]
-        agg["vtime"] += res["vtime"]
-        agg["switches"] += res["switches"]
-        agg["sites"] = max(agg["sites"], res.get("sites", 0))
-        for k, v in res["faults"].items():
-            agg["faults"][k] = agg["faults"].get(k, 0) + v
-        for k, v in res["probes"].items():
-            agg["probes"][k] = agg["probes"].get(k, 0) + v
-        pk = res["policy"]["kind"]
-        agg["policies"][pk] = agg["policies"].get(pk, 0) + 1
-        kd = case.get("kind", "-")
-        agg["kinds"][kd] = agg["kinds"].get(kd, 0) + 1
-        agg["sigs"].add(res["switch_sig"])
-        if res["nontrivial"]:
-            h = harness.hashlib.sha256(json.dumps([case, res["switch_sig"]], sort_keys=True, default=str).encode()).hexdigest()[:16]
-            agg["nontrivial"].add(h)
-        if len(agg["samples"]) < 1 and res.get("sample") is not None:
-            agg["samples"].append({"idx": idx, "policy": res["policy"], "case": res["sample"],
-                                   "schedule_rle_head": res["schedule"][:12], "steps": res["steps"]})
-        for v in res["violations"]:
-            agg["violations"].append({"idx": idx, "seed": seed, "case": case, "violation": v,
-                                      "policy": res["policy"], "schedule": res["schedule"], "digest": res["digest"]})
-            break
+        for seed, case, res in one_run(check, tier, verif_seed, idx):
+            agg["runs"] += 1
+            if res["harness_error"]:
+                agg["harness_errors"].append({"idx": idx, "error": res["harness_error"][-1500:]})
+                continue
+            agg["steps"] += res["steps"]
+            agg["vtime"] += res["vtime"]
+            agg["switches"] += res["switches"]
+            agg["sites"] = max(agg["sites"], res.get("sites", 0))
+            for k, v in res["faults"].items():
+                agg["faults"][k] = agg["faults"].get(k, 0) + v
+            for k, v in res["probes"].items():
+                agg["probes"][k] = agg["probes"].get(k, 0) + v
+            pk = res["policy"]["kind"]
+            agg["policies"][pk] = agg["policies"].get(pk, 0) + 1
+            kd = case.get("kind", "-")
+            agg["kinds"][kd] = agg["kinds"].get(kd, 0) + 1
+            agg["sigs"].add(res["switch_sig"])
+            if res["nontrivial"]:
+                h = harness.hashlib.sha256(json.dumps([case, res["switch_sig"]], sort_keys=True, default=str).encode()).hexdigest()[:16]
+                agg["nontrivial"].add(h)
+            if len(agg["samples"]) < 1 and res.get("sample") is not None:
+                agg["samples"].append({"idx": idx, "policy": res["policy"], "case": res["sample"],
+                                       "schedule_rle_head": res["schedule"][:12], "steps": res["steps"]})
+            for v in res["violations"]:
+                agg["violations"].append({"idx": idx, "seed": seed, "case": case, "violation": v,
+                                          "policy": res["policy"], "schedule": res["schedule"], "digest": res["digest"]})
+                break
     faulthandler.cancel_dump_traceback_later()
     return agg
 
@@ -86,7 +97,7 @@ def work_chunk(args):
 def digests(check, tier, verif_seed, idxs):
     out = {}
     for idx in idxs:
-        seed, case, res = one_run(check, tier, verif_seed, idx)
+        seed, case, res = one_run(check, tier, verif_seed, idx, with_subcases=False)[0]
         out[str(idx)] = res["digest"] if not res["harness_error"] else "ERR:" + res["harness_error"][-300:]
     return out
 
@@ -272,13 +283,12 @@ def main(argv=None):
     for k in known:
         path = os.path.join(VERIF, k["replay"])
         doc = json.load(open(path))
-        res = harness.run_replay(check, doc)
-        still = (not res["harness_error"]) and harness.same_violation(res, k["sig"]) is not None
-        known_status[k["id"]] = still
+        still, how, res = harness.reproduce_known(check, doc, k["sig"])
+        known_status[k["id"]] = how
         if still:
             print("KNOWN-FINDING: property=%s %s [id=%s sig=%s replay=%s]" % (prop, k["what"], k["id"], k["sig"], k["replay"]), flush=True)
         else:
-            print("note: known finding %s no longer reproduces from its stored replay (%s)" % (k["id"], res["harness_error"] or "no violation"), flush=True)
+            print("note: known finding %s no longer reproduces (stored schedule, lenient schedule and a seeded schedule search all came back clean)" % k["id"], flush=True)
 
     agg, unexplained, known_seen, known, wall = batch(check, a.tier, verif_seed, a.budget, a.procs, a.runs)
 
